@@ -272,7 +272,10 @@ def check_prop_post(pre_d, pre_s, post, strict, path, problems):
                     rest.remove(v)
                 else:
                     missing.append(v)
-            problems.append(('values-gained', 'same-dtype' + _special(missing + rest), path,
+            what = 'same-dtype' + _special(missing + rest)
+            if ddt is None and sdt is not None and sdt.endswith('-tuple'):
+                what = 'n-tuple-into-untyped-dest'          # every value is concerned, special or not
+            problems.append(('values-gained', what, path,
                              'own %r, src %r: gained %r, contract requires %r' % (own, list(pre_s['values']), extra, lacked)))
     else:
         allowed, any_tags = [], []
@@ -857,7 +860,10 @@ def run_section_merge(tier, seed):
                          '(3) ordered pairs of features on skeletons one node smaller: %d earlier/higher (something merge '
                          'changes or cannot merge) x %d later/deeper conflicts at every pair of positions a < b, plain '
                          'and with all names shared; (4) random: 1-3 features, thinned overlap, random naming mode, '
-                         'trees attached to documents; distinct = (feature(s), naming mode, position class, strict, outcome)'
+                         'trees attached to documents; (5) value content: Properties holding empty / false looking '
+                         'legitimate values (see C13.property_merge): the core of them (alone / middle value, dest lacks '
+                         'it / has it, converted) at every position of the skeletons up to 2 nodes, the others at the last '
+                         'node (quick: core at root / deepest node of the chain of two, second of two siblings); distinct = (feature(s), naming mode, position class, strict, outcome)'
                          % (max_nodes, len(PROP_FEATURES), len(SEC_FEATURES), len(SHARING) - 1, len(CORE),
                             len(EARLIER), len(LATER)), exhaustive=True)
     features = [(f, w) for f in PROP_FEATURES for w in ('first', 'last')] + [(f, None) for f in SEC_FEATURES]
@@ -912,6 +918,23 @@ def run_section_merge(tier, seed):
                                 outcome = _one(col, name, shape, [(a, _feature(la), 'first'), (b, _feature(lb), 'last')],
                                                mode, strict, wit, label)
                                 col.case(cls_key=(la, lb, mode, relation_class(shape, a, b), strict, outcome))
+    # ---- (5) value content of the Properties: special (empty / false looking) values at every position of the small
+    #      skeletons; quick: the core of them (alone / middle value, dest lacks it / has it) at the root and the deepest
+    #      node of the chain of two nodes and at the second of two siblings
+    for shape in h.tree_shapes(2):
+        n = count_nodes(shape)
+        for pos in range(n + 1):
+            if tier == 'quick' and not (n == 2 and (pos == 2 or (pos == 0 and shape == (((),),)))):
+                continue
+            for vf in VALUE_FEATURES:
+                if not vf[3] and (tier == 'quick' or pos != n):
+                    continue        # outside the core: thorough only, at the last node of every skeleton
+                for where in (('first', 'last') if tier != 'quick' and vf[3] else ('first',)):
+                    for strict in (True, False):
+                        wit = {'shape': repr(shape), 'position': pos, 'feature': vf[0], 'property_position': where,
+                               'dest': _spec_wit(vf[1]), 'src': _spec_wit(vf[2])}
+                        outcome = _one(col, name, shape, [(pos, vf[:3], where)], 'none', strict, wit, vf[0])
+                        col.case(cls_key=(vf[0], where, position_class(shape, pos), strict, outcome))
     # ---- (4) random: several features, thinned overlap, naming mode, dest and src living in documents
     rnd = random.Random('c13-%s' % seed)
     shapes = [s for s in h.tree_shapes(max_nodes) if count_nodes(s) >= 1]
@@ -973,9 +996,13 @@ def _attribute(name, shape, labels, mode, strict):
 def run_property_merge(tier, seed):
     name = 'C13.property_merge'
     col = Col(name, rule='every Property feature pair (dest, src) x strict on/off x (detached | attached to Sections); '
+                         'value content (%d pairs): every empty / false looking legitimate value of every dtype (empty and '
+                         'blank string, 0, 0.0, False, smallest date, midnight, tuples of empty looking elements) alone / '
+                         'first / middle / last in src / next to another such value x dest empty typed / untyped, lacking '
+                         'it, having it first / last / only x strict x attached, and the same converted to another dtype; '
                          'plus the cross product of attribute settings {unset, a, A-in-other-case, b} for unit, '
                          'definition, reference, value_origin and {unset, 0, 0.5, 2} for uncertainty on dest and src; '
-                         'distinct = (feature, strict, attached, outcome)', exhaustive=True)
+                         'distinct = (feature, strict, attached, outcome)' % len(VALUE_FEATURES), exhaustive=True)
     for feature in PROP_FEATURES:
         for strict in (True, False):
             for attached in (False, True):
@@ -990,6 +1017,22 @@ def run_property_merge(tier, seed):
                 outcome = judge(col, name, 'property', dest, src, strict, wit, feature[0], dest.merge)
                 col.case(cls_key=(feature[0], strict, attached, outcome),
                          sample='%s strict=%s -> %s' % (feature[0], strict, outcome))
+    # ---- value content: every special value of every dtype x placement in src x state of dest x strict x attached
+    for feature in VALUE_FEATURES:
+        for strict in (True, False):
+            for attached in (False, True):
+                with h.quiet():
+                    if attached:
+                        sd, ss = odml.Section(name='sd', type='t'), odml.Section(name='ss', type='t')
+                        odml.Property(name='other', values=[1], parent=sd)
+                        dest, src = build_prop(feature[1], sd), build_prop(feature[2], ss)
+                    else:
+                        dest, src = build_prop(feature[1]), build_prop(feature[2])
+                wit = {'feature': feature[0], 'attached': attached, 'dest': _spec_wit(feature[1]), 'src': _spec_wit(feature[2])}
+                outcome = judge(col, name, 'property', dest, src, strict, wit, feature[0], dest.merge)
+                col.case(cls_key=(feature[0], strict, attached, outcome),
+                         sample='%s strict=%s -> %s' % (feature[0], strict, outcome)
+                         if feature is VALUE_FEATURES[2] and not attached else None)
     texts = [None, 'some text', 'Some  Text ', 'other']
     uncs = [None, 0, 0.5, 2]
     for attr in ('unit', 'definition', 'reference', 'value_origin', 'uncertainty'):
@@ -1005,6 +1048,10 @@ def run_property_merge(tier, seed):
                                     dest.merge)
                     col.case(cls_key=(feat, strict, outcome))
     return col.result()
+
+
+def _spec_wit(spec):
+    return {'dtype': spec['dtype'], 'values': [v if isinstance(v, (str, int, float, bool)) else repr(v) for v in spec['values']]}
 
 
 def _tag(v):
@@ -1604,8 +1651,10 @@ def run_merge_history(tier, seed):
         _history(col, name, kind, shape, pos, edits, strict, sub=sub, injections=inj, mode=mode,
                  attached=rnd.random() < 0.2, feature=fl, tuples=rnd.random() < 0.15, rand=[seed, i])
     # ---- (6) two Properties merged twice (detached, and living in Sections one of which has been merged before)
-    for feature in PROP_FEATURES:
+    for feature in PROP_FEATURES + [vf[:3] for vf in VALUE_FEATURES if vf[3] or not quick]:
         for edit in PROP_EDITS:
+            if quick and feature[0].startswith('value-content') and edit[0] not in ('no-edit', 'dest-loses-last-value'):
+                continue
             for attached in (False, True):
                 for strict in _strict_patterns(2, True):
                     _property_history(col, name, feature, edit, attached, strict)
